@@ -12,6 +12,9 @@ def block_jobs(tier):
     for k in (2, 3):
         js.append({"id": f"O4.new-deterministic.k{k}", "func": "VerifH_C04_NewDeterministic", "conf": {"k": k},
                    "_obligation": "O4", "_covers": ["built"], "unwind": 30})
+    for c in (0, 1):
+        js.append({"id": f"O1.namespace-isolation.{'collection' if c else 'field'}", "func": "VerifH_C04_NamespaceIsolation", "conf": {"collection": c},
+                   "_obligation": "O1", "_covers": ["listed"], "unwind": 30})
     js.append({"id": "twin", "func": "VerifH_C04_Reach", "conf": {}, "_obligation": "vacuity", "_expect": "twin", "_covers": ["end"]})
     return js
 
